@@ -90,11 +90,11 @@ CLAIMED['C02'] = (
     'Invariant by induction over operations (no bound on history length): the full C02 state predicate WFS (operands/outputs exist, '
     'users index = inverse operand multiset, input list = INPUT gates each once, acyclic by a rank, block labels exist) holds for the '
     'empty circuit and is preserved by add_gate/emplace_gate, add_inputs, mark_as_output, set_outputs, set_inputs, order_inputs, '
-    'order_outputs, replace_inputs, make_block, delete_block; hence by every finite history of them, after which both topological '
-    'iterations yield every gate once in dependency order (C20). All other mutators (remove/rename, blocks removal and slices, '
+    'order_outputs, replace_inputs, make_block, delete_block and remove_gate; hence by every finite history of them, after which both topological '
+    'iterations yield every gate once in dependency order (C20). All other mutators (rename, blocks removal and slices, '
     'connect_circuit both directions, replace_subcircuit, into_bench, copy) are modelled one-to-one and compared field by field with '
     'the code after every call of random histories; every state the code produces goes through the Lean checker checkWFU.',
-    NOTE_COMMON + 'Invariant lemmas for remove_gate, rename_gate, connect_circuit, replace_subcircuit, into_bench(users), copy are not '
+    NOTE_COMMON + 'Invariant lemmas for rename_gate, connect_circuit, replace_subcircuit, into_bench(users), copy are not '
     'proved yet (partial). Aliasing clause of copy: correspondence-only.',
     'Lean 4 proof (state invariant by induction over operation histories; users-multiset lemmas) + per-call correspondence of histories')
 CLAIMED['C19'] = (
@@ -178,12 +178,12 @@ CLAIMED['C09'] = (
 CLAIMED['C08'] = (
     'DESIGN.md 5/C08',
     'Through the program logic of C07: frame theorem for every mode; the partial-product matrix sums to a*b; add_mul_alter = a*b '
-    'exactly for all widths and both endiannesses; add_mul (DEFAULT) = a*b as a weighted sum with strictly increasing levels. All six '
+    'exactly for all widths and both endiannesses; add_mul (DEFAULT) = a*b exactly (the weighted sum returns levels 0,1,2,... in order on gapless weights — a second loop invariant over the sorted work lists). All six '
     'multiplication modes (incl. both Karatsuba variants with their recursion thresholds, Dadda, Wallace, 2^k-1) and both squarers '
     '(incl. the split at n>=48) are modelled one-to-one and compared gate for gate (uuid pinned) on hosts built through the public API '
     '(widths to 40x40 / 56); the search checks the real generators exhaustively for n+m<=12 and on random, extreme and dense operands '
     'above (widths chosen where each mode changes behaviour), result widths, and host operands that are internal gates.',
-    NOTE_COMMON + 'Value theorems for Karatsuba, Dadda, Wallace, 2^k-1, squarers and the positional decode/width of DEFAULT are not proved yet '
+    NOTE_COMMON + 'Value theorems for Karatsuba, Dadda, Wallace, 2^k-1, squarers and the result widths are not proved yet '
     '(partial; gate-exact correspondence + oracle).',
     'Lean 4 proof (free-monad program logic, partial-product lemma, shift-add invariant) + gate-exact correspondence + value oracle')
 CLAIMED['C06'] = (
